@@ -49,17 +49,17 @@ func anonsRunAtSetup(f *ssa.Function) []*ssa.Function { return nil }
 var httpCtx = []string{"returns:httpserver.newContext=*httpserver.httpContext"}
 
 var c11Exceptions = map[string]e5Exception{
-	"casket.parseWindowsCommand|slice:part[:len(part)-1]": {"lastRune == '\\' means the previous byte of cmd was a backslash, which the backslash branch appended to part (and continued) in the previous iteration; nothing empties part in between, so len(part) >= 1", []string{"guard:(φ(lastRune) == 92)=true"}},
-	"casket.RegisterEventHook|panic":                       {"panics only for an empty or duplicate hook name; the single setup caller passes \"on-\"+<fresh UUID>", []string{"only-caller:onevent.setup", "caller-arg:\"on-\"+"}},
-	"httpserver.hideCasketfile|assert:*httpserver.httpContext": {"parsing callbacks of server type http receive the context made by httpserver.newContext", httpCtx},
-	"httpserver.activateHTTPS|assert:*httpserver.httpContext":  {"as above", httpCtx},
-	"httpserver.GetConfig|assert:*httpserver.httpContext":      {"GetConfig is only meaningful for directives of server type http, whose controllers carry the context made by httpserver.newContext", httpCtx},
-	"httpserver.ParseRoller|index:where[0]": {"the early return rejects len(where) != 1 for every directive other than rotate_compress/rotate_disable, and this site excludes those two", []string{"guard:(what != \"rotate_compress\")=true", "guard:(what != \"rotate_disable\")=true"}},
-	"httpserver.hostHasOtherPort|index:allConfigs[thisConfigIdx]": {"the only caller passes the index of the range over the same slice (which only grows inside that loop)", []string{"only-caller:httpserver.makePlaintextRedirects"}},
-	"fastcgi.parseSRV|slice:locator[6:]": {"called only when srvUpstream is set, i.e. the locator has the prefix srv:// (6 bytes) or srv+https://", []string{"only-caller:fastcgi.fastcgiParse"}},
+	"casket.parseWindowsCommand|slice:part[:len(part)-1]":                         {"lastRune == '\\' means the previous byte of cmd was a backslash, which the backslash branch appended to part (and continued) in the previous iteration; nothing empties part in between, so len(part) >= 1", []string{"guard:(φ(lastRune) == 92)=true"}},
+	"casket.RegisterEventHook|panic":                                              {"panics only for an empty or duplicate hook name; the single setup caller passes \"on-\"+<fresh UUID>", []string{"only-caller:onevent.setup", "caller-arg:\"on-\"+"}},
+	"httpserver.hideCasketfile|assert:*httpserver.httpContext":                    {"parsing callbacks of server type http receive the context made by httpserver.newContext", httpCtx},
+	"httpserver.activateHTTPS|assert:*httpserver.httpContext":                     {"as above", httpCtx},
+	"httpserver.GetConfig|assert:*httpserver.httpContext":                         {"GetConfig is only meaningful for directives of server type http, whose controllers carry the context made by httpserver.newContext", httpCtx},
+	"httpserver.ParseRoller|index:where[0]":                                       {"the early return rejects len(where) != 1 for every directive other than rotate_compress/rotate_disable, and this site excludes those two", []string{"guard:(what != \"rotate_compress\")=true", "guard:(what != \"rotate_disable\")=true"}},
+	"httpserver.hostHasOtherPort|index:allConfigs[thisConfigIdx]":                 {"the only caller passes the index of the range over the same slice (which only grows inside that loop)", []string{"only-caller:httpserver.makePlaintextRedirects"}},
+	"fastcgi.parseSRV|slice:locator[6:]":                                          {"called only when srvUpstream is set, i.e. the locator has the prefix srv:// (6 bytes) or srv+https://", []string{"only-caller:fastcgi.fastcgiParse"}},
 	"proxy.parseUpstream|slice:u[len(u[:strings.LastIndex(u,\":\")])+1:portsEnd]": {"us = u[:colonIdx] and u[colonIdx] == ':' so the first '/' at or after colonIdx is strictly after it: portsEnd >= colonIdx+1 = len(us)+1; otherwise portsEnd = len(u) > colonIdx", []string{"guard:(strings.LastIndex(u, \":\") == -1)=false"}},
-	"proxy.NewStaticUpstreams|index:upstream.Hosts[i]": {"Hosts was made with len(to) right before the loop over to; the only call in between, NewHost, does not assign Hosts (its effects through foreign pointers cannot reach this field)", []string{"no-field-store:(*proxy.staticUpstream).NewHost=Hosts", "guard:< builtin.len(φ(to)))=true"}},
-	"status.statusParse|assert:*status.Rule": {"the slice only ever receives *status.Rule values created in this function", []string{"elems:status.Rule"}},
+	"proxy.NewStaticUpstreams|index:upstream.Hosts[i]":                            {"Hosts was made with len(to) right before the loop over to; the only call in between, NewHost, does not assign Hosts (its effects through foreign pointers cannot reach this field)", []string{"no-field-store:(*proxy.staticUpstream).NewHost=Hosts", "guard:< builtin.len(φ(to)))=true"}},
+	"status.statusParse|assert:*status.Rule":                                      {"the slice only ever receives *status.Rule values created in this function", []string{"elems:status.Rule"}},
 }
 
 func init() {
@@ -265,7 +265,6 @@ func canReachThroughEdges(fn *ssa.Function, target ssa.Instruction, edges map[ed
 	}
 	return false
 }
-
 
 // carrierFieldSet: fa addresses a field of an unexported struct type of the module, and every allocation of that
 // struct type in the module stores that field, never with a nil constant or a value loaded from another field.
